@@ -1168,3 +1168,68 @@ theorem obs_tx_S_to_M {l : L} {ts : TS} (ho : ts.outs.filterMap obsS = l.out.fil
   | sub _ => simp [obsM] at ho2
 
 end Coap.Sim
+
+/-! ## the wait `coap_io_prepare_io` returns, against every pending deadline of every session -/
+namespace Coap.Sim
+open Coap Coap.SQ Coap.Msg
+
+theorem prepareCore_wait_all (l : L) : let r := prepareCore l
+    (∀ e ∈ abs r.1.q, r.2 ≤ e.deadline - r.1.now) ∧
+    (∀ d, Spec.SQ.earliest (abs r.1.q) = some d → r.2 = (d - r.1.now) % 4294967296) ∧
+    (r.1.q.nodes = [] → r.2 = 0) := by
+  intro r
+  simp only [r]
+  unfold prepareCore
+  generalize dueLoop (dueFuel l) l = l'
+  rcases l' with ⟨now, ⟨base, nodes⟩, sess, out⟩
+  rcases nodes with _ | ⟨h, rest⟩
+  · simp [abs, absFrom, Spec.SQ.earliest]
+  · simp only [abs, absFrom, Spec.SQ.earliest, Option.some.injEq, List.mem_cons]
+    have hw : ∀ x : Nat, (x * 1000 + 999) / 1000 = x := by intro x; omega
+    refine ⟨?_, ?_, by simp⟩
+    · intro e he
+      have hge : base + h.t ≤ e.deadline := by
+        rcases he with rfl | he
+        · exact Nat.le_refl _
+        · exact absFrom_ge _ _ e he
+      rw [hw]
+      have := Nat.mod_le (if now ≥ base then h.t - (now - base) else h.t + (base - now)) 4294967296
+      split at this <;> rename_i hb <;> simp only [hb, if_true, if_false] <;> omega
+    · intro d hd
+      subst hd
+      rw [hw]
+      congr 1
+      split <;> omega
+
+end Coap.Sim
+
+/-! ## decidability of the run predicates (for the concrete witnesses) -/
+namespace Coap.Sim
+open Coap Coap.SQ Coap.Msg
+
+instance (l : L) : Decidable (NothingDue l) :=
+  match h : Spec.SQ.earliest (abs l.q) with
+  | none => isTrue (by intro d hd; rw [h] at hd; cases hd)
+  | some d =>
+    if hlt : l.now < d then isTrue (by intro d' hd; rw [h] at hd; cases hd; exact hlt)
+    else isFalse (fun hn => hlt (hn d h))
+
+instance (l : L) (ev : Ev) : Decidable (EvIn l ev) := by
+  cases ev <;> simp only [EvIn] <;> infer_instance
+
+instance decRunIn : (evs : List Ev) → (l : L) → Decidable (RunIn l evs)
+  | [], _ => isTrue trivial
+  | ev :: evs, l => by
+    unfold RunIn
+    exact @instDecidableAnd _ _ _ (decRunIn evs _)
+
+instance (l : L) (ev : Ev) : Decidable (EvPunct l ev) := by
+  cases ev <;> simp only [EvPunct] <;> infer_instance
+
+instance decPunctual : (evs : List Ev) → (l : L) → Decidable (Punctual l evs)
+  | [], _ => isTrue trivial
+  | ev :: evs, l => by
+    unfold Punctual
+    exact @instDecidableAnd _ _ _ (decPunctual evs _)
+
+end Coap.Sim
